@@ -122,6 +122,7 @@ func runC05(w *mc.Worker) {
 	})
 	if w.Tier == "quick" {
 		stage("w3-d2", "destination trees of weight <= 3, depth <= 2; amounts {0,1,2,3,5,8}", 3, 2, amtQ)
+		stage("w4-d2", "destination trees of weight <= 4, depth <= 2; amounts {0,1,2,3,5,8}", 4, 2, amtQ)
 	} else {
 		stage("w4-d2-H", "destination trees of weight <= 4, depth <= 2; amounts {0,1,2,3,5,7,8,100,H,2H}", 4, 2, amtT)
 		stage("w5-d3", "destination trees of weight <= 5, depth <= 3; amounts {0,1,2,3,5,8}", 5, 3, amtQ)
